@@ -722,6 +722,22 @@ def gen_state(repo):
     L.append('/-- `LJShape2::from_trimer`: σ = factor · radius, cutoff on every particle -/')
     L.append('def ljTrimerSigmaFactor : BExpr := ' + sig)
     L.append('def ljTrimerCutoff : BExpr := ' + cut)
+    # --- Line2::TOLERANCE
+    l2 = read(repo, 'src/shape/components/line2.rs')
+    mt = re.search(r'const\s+TOLERANCE\s*:\s*f64\s*=\s*([^;]+);', l2)
+    tolx = None
+    if mt:
+        tolx = bexpr_or(mt.group(1), None, 'Line2::TOLERANCE')
+    if tolx is None:
+        notes.append('Line2::TOLERANCE not found')
+        tolx = '(.lit 1 1000000000000)'
+    ib = fn_body(l2, 'intersects') or ''
+    if not re.search(r'u_b\.abs\(\)\s*<=\s*Self::TOLERANCE\s*\*\s*lengths', ib):
+        notes.append('Line2::intersects: parallel test is not |u_b| <= TOLERANCE * lengths')
+    if norm(re.search(r'if(-Self::TOLERANCE<=ua.*?)\{', norm(ib)).group(1) if re.search(r'if(-Self::TOLERANCE<=ua.*?)\{', norm(ib)) else '') != '-Self::TOLERANCE<=ua&&ua<=1.+Self::TOLERANCE&&-Self::TOLERANCE<=ub&&ub<=1.+Self::TOLERANCE':
+        notes.append('Line2::intersects: parameter test is not -TOL <= ua <= 1+TOL && -TOL <= ub <= 1+TOL')
+    L.append('/-- `Line2::TOLERANCE`: relative precision of the segment test -/')
+    L.append('def lineTolerance : BExpr := ' + tolx)
     L.append('')
     L.append('def stateHandModelledChanged : List String := [' + ', '.join(lean_str(k) for k in changed) + ']')
     L.append('/-- constructs the translator did not recognise (must be empty) -/')
